@@ -39,9 +39,87 @@ def _limit_harness():
     resource.setrlimit(resource.RLIMIT_AS, (24 << 30, 24 << 30))
 
 
+BASE_COMMIT_FILE = os.path.join(VERIF, "BASE_COMMIT")
+_HINTS = None
+
+
+def source_hints():
+    """Values the current source differs from the verified baseline in: the integer, floating-point and string literals on
+    the lines of `git diff <baseline> -- src`. They are handed to the harness (OPTRS_HINTS), whose generators add inputs built
+    around them — systems of that many atoms or terms, distances / entries / moves of that size, files of that name. A search
+    heuristic only (a change is often gated on a constant it introduces); with no difference there are no hints."""
+    global _HINTS
+    if _HINTS is not None:
+        return _HINTS
+    base = ""
+    try:
+        base = open(BASE_COMMIT_FILE).read().strip()
+    except OSError:
+        pass
+    out = ""
+    for ref in ([base] if base else []) + ["HEAD"]:
+        try:
+            p = subprocess.run(["git", "-C", REPO, "diff", "--no-color", "-U0", ref, "--", "src"], stdout=subprocess.PIPE, stderr=subprocess.DEVNULL, timeout=60)
+        except Exception:
+            continue
+        if p.returncode == 0:
+            out = p.stdout.decode("utf-8", "replace")
+            break
+    added, removed = [], []
+    for line in out.splitlines():
+        if line.startswith("+++") or line.startswith("---"):
+            continue
+        if line.startswith("+"):
+            added.append(re.sub(r"//.*", "", line[1:]))
+        elif line.startswith("-"):
+            removed.append(re.sub(r"//.*", "", line[1:]))
+    old_text = "\n".join(removed)
+
+    def literals(text):
+        ints, floats, strs = [], [], []
+        for m in re.finditer(r'"([^"\\\n]{1,40})"', text):
+            strs.append(m.group(1))
+        t = re.sub(r'"[^"\n]*"', " ", text)
+        for m in re.finditer(r"(?<![\w.])(\d[\d_]*)\s*<<\s*(\d+)", t):
+            ints.append(int(m.group(1).replace("_", "")) << int(m.group(2)))
+        t = re.sub(r"(?<![\w.])(\d[\d_]*)\s*<<\s*(\d+)", " ", t)
+        for m in re.finditer(r"(?<![\w.])(\d[\d_]*\.\d*(?:[eE][-+]?\d+)?|\d[\d_]*[eE][-+]?\d+)(?:_?f64)?(?![\w])", t):
+            try:
+                floats.append(float(m.group(1).replace("_", "")))
+            except ValueError:
+                pass
+        t = re.sub(r"(?<![\w.])(\d[\d_]*\.\d*(?:[eE][-+]?\d+)?|\d[\d_]*[eE][-+]?\d+)(?:_?f64)?(?![\w])", " ", t)
+        for m in re.finditer(r"(?<![\w.])(\d[\d_]*)(?:_?(?:usize|u8|u16|u32|u64|i32|i64|isize))?(?![\w.]|\s*<<)", t):
+            v = int(m.group(1).replace("_", ""))
+            ints.append(v)
+        return ints, floats, strs
+
+    ai, af, as_ = literals("\n".join(added))
+    oi, of, os_ = literals(old_text)
+    def order(new, old):
+        seen, res = set(), []
+        for v in [x for x in new if x not in old] + [x for x in new if x in old] + old:   # novel values first
+            if v not in seen:
+                seen.add(v); res.append(v)
+        return res
+    ints = [v for v in order(ai, oi) if 5 <= v <= 10_000_000][:10]
+    floats = [v for v in order(af, of) if v == v and 0.0 < abs(v) < 1e300 and v not in (1.0, 2.0, 0.5)][:10]
+    strs = [v for v in order(as_, os_) if re.fullmatch(r"[A-Za-z0-9_.\-/ ]{1,40}", v)][:6]
+    _HINTS = {"ints": ints, "floats": floats, "strs": strs}
+    return _HINTS
+
+
+def hints_env():
+    h = source_hints()
+    parts = ["i:%d" % v for v in h["ints"]] + ["f:%r" % v for v in h["floats"]] + ["s:" + v for v in h["strs"]]
+    return ";".join(parts)
+
+
 def sh(cmd, cwd=None, timeout=None, env=None, input_bytes=None):
     e = dict(os.environ)
     e["CARGO_NET_OFFLINE"] = "true"
+    if cmd and cmd[0] == HX:
+        e["OPTRS_HINTS"] = hints_env()
     if env:
         e.update(env)
     pre = _limit_harness if cmd and cmd[0] == HX else None
@@ -337,6 +415,7 @@ def build_model(res):
 def run_stream(stream, args, res, seed, tier, model_stream=None, timeout=3000, label=None):
     """Run one harness stream, feed the inputs to the model driver, compare. Returns list of mismatches."""
     label = label or stream
+    res.stats["source_hints"] = hints_env() or "none (the source is the verified baseline)"
     rc, out = sh([HX, stream, "--seed", str(seed), "--tier", tier] + list(args), timeout=timeout)
     if rc != 0:
         res.broken.append(("harness", f"stream {label}", f"exit {rc}: " + out[-600:]))
